@@ -82,6 +82,8 @@ def expected_edges(model, entry_toks=None):
                 edges.append((t.id, "Branch", False, False, ("anon",)))
             elif k == "icall":
                 edges.append((t.id, "Call", False, False, ("anon",)))
+            elif k == "syscall":
+                edges.append((t.id, "Syscall", False, False, ("anon",)))
             elif k == "ret":
                 rets.append(t)
     for t in rets:
